@@ -312,7 +312,7 @@ fn nontrivial(ctx: &RunCtx, st: &RunStats) -> u32 {
         if pd.through && ps.stream_dropped.load(ORD) != 0 { m |= bit(16); }
         if !pd.through && ps.input.lock().unwrap().pending_polls > 0 { m |= bit(11); }
     }
-    if prog.hold_phase { m |= bit(10); }
+    if prog.hold_phase || prog.phases.iter().any(|p| p.free_must_complete) { m |= bit(10); }
     if prog.panics && ctx.expected_panic_seen.load(ORD) > 0 { m |= bit(15); }
     if crate::run::SPAWN_EVENTS.load(std::sync::atomic::Ordering::Relaxed) > 0 { m |= bit(17); }
     // C14: a lifetime-erasing site was reached concurrently with another thread
